@@ -105,6 +105,7 @@ type Path struct {
 	fdivInfo  map[*Term][2]*Term // abstract float quotient -> (x, y) wide integer terms (fpcut.go)
 	sigs      map[string][2]string // ideal signatures made in this run: sig -> (public key hex, signed hash hex)
 	keyCounter int
+	viperVals map[string]value // 0chain.net/core/viper.Set / GetInt (everything else of viper is a no-op)
 	blsIDNum  map[string]uint64 // long bls.ID hex strings interned (dkgx.go)
 	blsIDStr  map[uint64]string
 	dkgGroups int
